@@ -85,6 +85,20 @@ Proof.
   intros HB. apply (history_returns gen wck ord RC OC P sf HS HWF HWO always fuel h init_world HB J_init (Q_init gen ord)).
 Qed.
 
+(* C05, the "Hence" clause, inside the static class: in every reachable store every recorded reader of a resource directly
+   requires the task recorded as its writer (so it is a transitive dependency), also for executing and aborted tasks *)
+Theorem static_class_readers_require_writer fuel h : hist_below ord fuel h ->
+  let w := snd (run_history RC OC P always fuel init_world h) in
+  forall rd g r dp dp', row w rd (rn r) = Some dp -> is_read (Some dp) = true -> row w g (rn r) = Some dp' -> is_write (Some dp') = true ->
+    In (tn g) (kidsT w rd) /\ contains_transitive_task_dependency w rd g = Some true.
+Proof.
+  intros HB w rd g r dp dp' R1 I1 R2 I2.
+  destruct (history_returns gen wck ord RC OC P sf HS HWF HWO always fuel h init_world HB J_init (Q_init gen ord)) as [_ [Jw Qw]]. fold w in Jw, Qw.
+  pose proof (proj1 (proj2 (Qw g)) r dp' R2 I2) as G.
+  destruct (proj2 (proj2 (Qw rd)) r dp R1 I1) as [E|[g' [E I']]]; [congruence|]. rewrite G in E. inversion E; subst g'.
+  split; [exact I'|]. apply cte_edge; [apply Jw|exact I'].
+Qed.
+
 Hypothesis HC : forall c env r v v', rc_check (RC c) env r v' (sf c r v) = Consistent -> rc_view (RC c) v' = rc_view (RC c) v.
 Hypothesis HW : forall c env r v v', wck c -> rc_check (RC c) env r v' (sf c r v) = Consistent -> v' = v.
 Hypothesis HOC : forall c o o', oc_check (OC c) o' (oc_stamp (OC c) o) = true -> oc_view (OC c) o' = oc_view (OC c) o.
